@@ -44,6 +44,38 @@ def _kids_ok(kids, n):
     return True
 
 
+def derive_levels(root, tap):
+    """Decode-step bookkeeping derived from the tree and the registry tap only (independent of how the
+    engine recurses): level[id(node)] = number of decoding steps between the input and the node's value
+    (undecoded contexts share the level of the text they were found in; a decoded hit and a decoder-supplied
+    child are one step further); pass_[id(node)] = level of the text whose search attached the node
+    (decoder-supplied children belong to the pass of their top-level hit). Also returns the list of
+    'searchable' nodes (root, decoded hits without supplied children, supplied leaves) with their level."""
+    top = {}
+    for call in tap.calls:
+        for s in call.hits:
+            top.setdefault(id(s.obj), s)
+    level = {id(root): 0}
+    pass_ = {id(root): -1}
+    searchable = [(root, 0)]
+    for node, parent, _ in tree.preorder(root):
+        snap = top.get(id(node))
+        pl = level[id(parent)]
+        if snap is not None:
+            covered = parent.value[node.start:node.end] if 0 <= node.start <= node.end else b""
+            decoded = bytes(node.value).lower() != bytes(covered).lower() or snap.nkids > 0
+            level[id(node)] = pl + 1 if decoded else pl
+            pass_[id(node)] = pl
+            if decoded and snap.nkids == 0:
+                searchable.append((node, pl + 1))
+        else:
+            level[id(node)] = pl + 1
+            pass_[id(node)] = pass_[id(parent)]
+            if not node.children or all(id(c) in top for c in node.children):
+                searchable.append((node, pl + 1))
+    return level, pass_, searchable, top
+
+
 # ---------------------------------------------------------------------------
 # C04
 
@@ -257,6 +289,16 @@ def check_c07_bound(root, k, tap, report, counts):
     cut = [a for a in tap.acts if a.depth_limit <= 0 and a.level > 0]
     if cut:
         counts["c07_scans_cut_by_limit"] = counts.get("c07_scans_cut_by_limit", 0) + 1
+    # the same bound without relying on the activation tap: decoder calls == |registry| x (searchable nodes fewer
+    # than k decoding steps away), derived from the tree and the registry tap alone
+    if stream_well_formed(tap):
+        level, _, searchable, _ = derive_levels(root, tap)
+        expect = nreg * sum(1 for _, lv in searchable if lv < k)
+        counts["c07_call_count_checks"] = counts.get("c07_call_count_checks", 0) + 1
+        if len(tap.calls) != expect:
+            kind = "more" if len(tap.calls) > expect else "fewer"
+            report(f"depth:call-count:{kind}", f"{len(tap.calls)} decoder calls, but {expect // max(nreg, 1)} node(s) lie fewer than {k} "
+                                               f"decoding steps from the input ({nreg} registry entries)")
 
 
 def canon_without(node, removed):
@@ -281,12 +323,8 @@ def is_sublist_tree(small, big) -> bool:
 
 def check_c07_monotone(root_k, k, root_k1, tap_k1, report, counts):
     """tree(k) == tree(k+1) minus everything attached by the deepest search pass."""
-    removed = set()
-    for act in tap_k1.acts:
-        if act.level == k and act.calls:
-            for call in act.calls:
-                for s in call.hits:
-                    removed.add(id(s.obj))
+    _, pass_, _, _ = derive_levels(root_k1, tap_k1)
+    removed = {nid for nid, p in pass_.items() if p == k}
     small = tree.canon(root_k)
     pruned = canon_without(root_k1, removed)
     big = tree.canon(root_k1)
@@ -308,25 +346,23 @@ def check_c08(root, tap, report, counts, r=None, limit=20, registry=None):
     from multidecoder.multidecoder import Multidecoder
     from multidecoder.node import Node
 
+    level, _, searchable, top = derive_levels(root, tap)
+    k = tap.acts[0].depth_limit if tap.acts else None
+    if k is None:
+        return
     cands = []
-    for act in tap.acts:
-        if act.parent is None or act.had_children:
+    for D, lv in searchable:
+        if D is root or D.parent is None or id(D) not in top:
             continue
-        D = act.node
-        if D.parent is None:
-            continue
-        if D.value.lower() == D.original.lower():
-            continue  # not a decoded node
-        cands.append(act)
+        cands.append((D, k - lv))
     if r is not None and len(cands) > limit:
         cands = r.sample(cands, limit)
     else:
         cands = cands[:limit]
     fresh_md = Multidecoder(decoders=list(registry if registry is not None else tap.originals))
-    for act in cands:
-        D = act.node
+    for D, remaining in cands:
         got = tree.canon_children(D)
-        fresh = fresh_md.scan_node(Node(D.type, D.value), act.depth_limit)
+        fresh = fresh_md.scan_node(Node(D.type, D.value), remaining)
         want = tree.canon_children(fresh)
         counts["c08_decoded_nodes_compared"] = counts.get("c08_decoded_nodes_compared", 0) + 1
         if want:
@@ -337,4 +373,4 @@ def check_c08(root, tap, report, counts, r=None, limit=20, registry=None):
         if got != want:
             d = tree.first_diff(("", b"", "", 0, 0, got), ("", b"", "", 0, 0, want))
             report("subscan:children-differ", f"children of decoded node {D.type!r}/{D.obfuscation!r} (remaining depth "
-                                              f"{act.depth_limit}) differ from an independent scan of its value: {d}")
+                                              f"{remaining}) differ from an independent scan of its value: {d}")
